@@ -21,6 +21,8 @@ func Spec() *run.Spec {
 			"and shared texture/sampler pointers, optional TRS, 0–5 GPU instances, 0–3 lights, material/texture extensions. Phase dedup-matrix: case i exercises single-field variant kind i mod K " +
 			"(K = every core material field, every texture field in each texture slot, presence/value/texture of every material extension) next to the base pointer twice, a copy of the base and a copy of the variant. " +
 			"Phase index-width: meshes of 65 534…70 000 vertices whose index list touches the last vertex. " +
+			"Phase fault-sequences: histories of 3–8 exports in one goroutine mixing scenes the writer must reject after an earlier model already wrote geometry (nil mesh, alphaCutoff without MASK in 3 forms, non-finite min/max refused by encoding/json), valid scenes written to failing / short-writing io.Writers at a seeded byte budget, and valid exports that must pass the full oracle whatever happened before; non-trivial = some fault followed by a checked valid export with ≥ 2 accessors. " +
+			"Phase large-payload: point-cloud scenes composed to hit an exact buffer size (1 MiB −2/0/+2/+4, between 1 and 2 MiB, 2 MiB +2, above 2 MiB, above 3 MiB), text and binary container, base64 decoded strictly. " +
 			"Non-trivial = at least 2 written models that share a mesh, material or texture pointer (or value-equal copy) and at least 2 accessors in the output; " +
 			"distinct = distinct structural descriptor (model count, topologies, attribute sets, index widths, sharing kinds, variant kinds, TRS/instancing/light/extension mix).",
 		Assumptions: []string{
@@ -55,6 +57,18 @@ func Spec() *run.Spec {
 				}
 				return 5 * len(allMatKinds)
 			}, Run: dedupCase, Batch: 60, CPUBudgetS: 30},
+			{Name: "fault-sequences", Cases: func(t string) int {
+				if t == "thorough" {
+					return 20000
+				}
+				return 500
+			}, Run: faultSeqCase, Batch: 50, CPUBudgetS: 60},
+			{Name: "large-payload", Cases: func(t string) int {
+				if t == "thorough" {
+					return 80
+				}
+				return 8
+			}, Run: largePayloadCase, Batch: 1, CPUBudgetS: 120},
 			{Name: "index-width", Cases: func(t string) int {
 				if t == "thorough" {
 					return 500
@@ -176,74 +190,115 @@ func runScene(c *run.Ctx, si *sceneInfo, kind string) run.Result {
 
 	accessors := 0
 	for _, cont := range []string{"text", "glb"} {
-		buf := &bytes.Buffer{}
-		var err error
-		c.Note("gltf write " + cont + " " + res.Sig)
-		p := run.Try(func() {
-			if cont == "text" {
-				err = gltf.WriteText(si.scene, buf)
-			} else {
-				err = gltf.WriteBinary(si.scene, buf)
-			}
-		})
-		ck := &checker{si: si, res: &res, cont: cont}
-		site := "gltf.WriteText"
-		if cont == "glb" {
-			site = "gltf.WriteBinary"
-		}
-		if p != nil {
-			ck.viol("writer-panic", site+" ("+p.Site+")", "panic while writing a well-formed scene: %s\n%s", p.Value, firstLines(p.Stack, 14))
-			continue
-		}
-		if err != nil {
-			if si.expectReject {
-				res.Count("scenes_rejected_as_documented", 1)
-				continue
-			}
-			if si.jsonReject && strings.Contains(err.Error(), "unsupported value") {
-				// ±Inf in min/max or NaN through the unguarded VEC4 path: encoding/json refuses the document.
-				// No file is produced; recorded, not a verdict (reported to the coordinator as a finding).
-				res.Count("nonfinite_scenes_refused_by_json_encoder", 1)
-				continue
-			}
-			ck.viol("unexpected-write-error", site, "well-formed scene rejected: %v", err)
-			continue
-		}
-		res.SetAdd("containers", cont)
-		res.Count("bytes_"+cont, int64(buf.Len()))
-		var d *Doc
-		if cont == "text" {
-			d = ParseText(buf.Bytes())
-		} else {
-			d = ParseGLB(buf.Bytes())
-		}
-		d.Check()
-		ck.d = d
-		for _, f := range d.F {
-			var w any
-			if f.class != "accessor-misaligned" { // the known finding occurs in every other scene: keep journals small
-				w = ck.witness()
-			}
-			res.Violate(f.class, f.site, cont, f.detail, w)
-		}
-		res.Count("misaligned_accessors", int64(d.Misaligned))
-		res.Count("nonfinite_components_stored", int64(d.NonFiniteStored))
-		res.Count("minmax_columns_without_nan_free_element_(no_demand)", int64(d.MinMaxNoDemand))
-		if len(si.nonFinite) > 0 {
-			res.Count("nonfinite_scenes_written_and_checked", 1)
-		}
-		res.Count("minmax_checked", int64(d.MinMaxSeen))
-		res.Count("accessors_checked", int64(len(d.arr("accessors"))))
-		for e := range d.ExtInUse {
-			res.SetAdd("extensions_in_output", e)
-		}
-		if a := len(d.arr("accessors")); a > accessors {
+		if a, _ := exportAndCheck(c, &res, si, cont, ""); a > accessors {
 			accessors = a
 		}
-		ck.content()
 	}
 	res.Nontrivial = written >= 2 && accessors >= 2 && (sharedMesh > 0 || sharedMat > 0)
 	return res
+}
+
+// exportAndCheck writes the scene into a good writer with the given container and runs the full
+// structural + content oracle on the bytes. Returns the number of accessors of the document (-1
+// when no document was produced). ctxNote prefixes violation details (history position in the
+// fault-sequences phase).
+func exportAndCheck(c *run.Ctx, res *run.Result, si *sceneInfo, cont, ctxNote string) (accessors int, nbytes int) {
+	buf := &bytes.Buffer{}
+	var err error
+	c.Note("gltf write " + cont + " " + ctxNote + res.Sig)
+	p := run.Try(func() {
+		if cont == "text" {
+			err = gltf.WriteText(si.scene, buf)
+		} else {
+			err = gltf.WriteBinary(si.scene, buf)
+		}
+	})
+	ck := &checker{si: si, res: res, cont: cont, note: ctxNote}
+	site := "gltf.WriteText"
+	if cont == "glb" {
+		site = "gltf.WriteBinary"
+	}
+	if p != nil {
+		ck.viol("writer-panic", site+" ("+p.Site+")", "panic while writing a well-formed scene: %s\n%s", p.Value, firstLines(p.Stack, 14))
+		return -1, 0
+	}
+	if err != nil {
+		if si.expectReject {
+			res.Count("scenes_rejected_as_documented", 1)
+			return -1, 0
+		}
+		if si.jsonReject && strings.Contains(err.Error(), "unsupported value") {
+			// ±Inf in min/max or NaN through the unguarded VEC4 path: encoding/json refuses the document.
+			// No file is produced; recorded, not a verdict (reported to the coordinator as a finding).
+			res.Count("nonfinite_scenes_refused_by_json_encoder", 1)
+			return -1, 0
+		}
+		ck.viol("unexpected-write-error", site, "well-formed scene rejected: %v", err)
+		return -1, 0
+	}
+	res.SetAdd("containers", cont)
+	res.Count("bytes_"+cont, int64(buf.Len()))
+	var d *Doc
+	if cont == "text" {
+		d = ParseText(buf.Bytes())
+	} else {
+		d = ParseGLB(buf.Bytes())
+	}
+	d.Check()
+	ck.d = d
+	for _, f := range d.F {
+		var w any
+		if f.class != "accessor-misaligned" { // the known finding occurs in every other scene: keep journals small
+			w = ck.witness()
+		}
+		res.Violate(f.class, f.site, cont, ctxNote+f.detail, w)
+	}
+	res.Count("misaligned_accessors", int64(d.Misaligned))
+	res.Count("nonfinite_components_stored", int64(d.NonFiniteStored))
+	res.Count("minmax_columns_without_nan_free_element_(no_demand)", int64(d.MinMaxNoDemand))
+	if len(si.nonFinite) > 0 {
+		res.Count("nonfinite_scenes_written_and_checked", 1)
+	}
+	res.Count("minmax_checked", int64(d.MinMaxSeen))
+	res.Count("accessors_checked", int64(len(d.arr("accessors"))))
+	for e := range d.ExtInUse {
+		res.SetAdd("extensions_in_output", e)
+	}
+	if b0 := d.objAt("buffers", 0); b0 != nil {
+		if bl, ok := asInt(b0["byteLength"]); ok {
+			if cl := payloadClass(bl); cl != "" {
+				res.SetAdd("large_payload_classes_"+cont, cl)
+			}
+		}
+	}
+	ck.content()
+	return len(d.arr("accessors")), buf.Len()
+}
+
+// payloadClass names the size class of a buffer payload relative to the 1 MiB / 2 MiB marks.
+func payloadClass(n int) string {
+	const MiB = 1 << 20
+	switch {
+	case n > 3*MiB:
+		return ">3MiB"
+	case n > 2*MiB && n <= 2*MiB+4:
+		return "2MiB+2..4"
+	case n > 2*MiB:
+		return ">2MiB"
+	case n == 2*MiB:
+		return "=2MiB"
+	case n >= 2*MiB-4 && n < 2*MiB:
+		return "2MiB-2..4"
+	case n > MiB && n <= MiB+4:
+		return "1MiB+2..4"
+	case n > MiB:
+		return ">1MiB"
+	case n == MiB:
+		return "=1MiB"
+	case n >= MiB-4:
+		return "1MiB-2..4"
+	}
+	return ""
 }
 
 func keys(m map[string]bool) string {
